@@ -17,13 +17,20 @@ import (
 	"sync"
 )
 
-func c16Scenario(c *Ctx, idx int, r *Rng) (mline, mimpl, mcase string) {
+// directed: the scenario opens with three successful locks of the current user and a complete `locks --verify`
+// against a server that answers in pages of one or two locks (regressing the saved seeds showed that the random
+// sequences of the quick tier meet "several own locks + pagination + verification" for some seeds only).
+func c16Scenario(c *Ctx, idx int, r *Rng, directed bool) (mline, mimpl, mcase string) {
 	base := filepath.Join(c.Work, fmt.Sprintf("c16-%d", idx))
 	defer os.RemoveAll(base)
 	os.MkdirAll(base, 0o755)
 	srv := newLfsServer()
 	defer srv.srv.Close()
 	srv.pageSize = Pick(r, []int{0, 0, 1, 2})
+	if directed {
+		srv.pageSize = 1 + r.Intn(2)
+	}
+	forcing := false
 	remote := filepath.Join(base, "remote.git")
 	runIn(base, nil, "git", "init", "-q", "--bare", remote)
 	w, err := newScenRepo(c, filepath.Join(base, "w"), srv)
@@ -174,6 +181,9 @@ func c16Scenario(c *Ctx, idx int, r *Rng) (mline, mimpl, mcase string) {
 	}
 	srvMode := func() string {
 		m := Pick(r, []string{"ok", "ok", "ok", "ok", "403", "404", "501", "500"})
+		if forcing {
+			m = "ok"
+		}
 		srv.mu.Lock()
 		srv.lockMode = m
 		srv.user = "alice"
@@ -200,9 +210,21 @@ func c16Scenario(c *Ctx, idx int, r *Rng) (mline, mimpl, mcase string) {
 	nops := 4 + r.Intn(12)
 	committedSinceEdit := true
 	_ = committedSinceEdit
+	if directed && nops < 7 {
+		nops = 7
+	}
 	for op := 0; op < nops; op++ {
 		f := Pick(r, lockables)
-		switch r.Intn(15) {
+		kind := r.Intn(15)
+		forcing = directed && op < 4
+		if forcing {
+			kind = 0
+			f = lockables[op%len(lockables)]
+			if op == 3 {
+				kind = 6
+			}
+		}
+		switch kind {
 		case 0, 1, 2: // lock
 			mode := srvMode()
 			out, code := w.runLfs("lock", f)
@@ -442,7 +464,10 @@ func c16Scenario(c *Ctx, idx int, r *Rng) (mline, mimpl, mcase string) {
 					nOwn++
 				}
 			}
-			if nOwn >= 2 && r.Chance(50) {
+			if forcing {
+				args = []string{"locks", "--verify"} // directed: a complete, paginated listing while several own locks exist
+				c.R.Count("verify.paged-with-several-own-locks")
+			} else if nOwn >= 2 && r.Chance(50) {
 				args = []string{"locks", "--verify", "--limit", "1"} // directed: a listing cut short while several own locks exist
 			}
 			mode := "ok"
@@ -817,7 +842,7 @@ func c16(c *Ctx) {
 	var mu sync.Mutex
 	var lines, impl, cases []string
 	only := os.Getenv("VERIF_IDX") // debugging aid: run the scenario of one index (same random stream)
-	for i := 0; i < n; i++ {
+	for i := 0; i < n+c.N(8, 80); i++ { // the last ones are the directed scenarios
 		rs := r.Fork()
 		if only != "" && only != fmt.Sprint(i) {
 			continue
@@ -832,7 +857,7 @@ func c16(c *Ctx) {
 					c.R.Add(Finding{Kind: "diff", What: fmt.Sprintf("scenario harness problem: %v", x), Broken: "corr.C16.scenario"})
 				}
 			}()
-			l, m, cs := c16Scenario(c, i, rs)
+			l, m, cs := c16Scenario(c, i, rs, i >= n)
 			if l != "" {
 				mu.Lock()
 				lines = append(lines, l)
